@@ -88,6 +88,9 @@ func buildTree(st *memory.Storage, files map[string]fent, prefix string) plumbin
 	return put(st, plumbing.TreeObject, (&object.Tree{Entries: entries}).Encode)
 }
 
+var prevTD *items.TreeDiff
+var prevBC *items.BlobCache
+
 // set by runOne: decidable classes of the known findings D10 / D15
 var langFlip, sub0 bool
 
@@ -111,6 +114,13 @@ func runOne(seed int64, mode string) (msg string) {
 	files := map[string]fent{}
 	td := &items.TreeDiff{}
 	bc := &items.BlobCache{}
+	if prevTD != nil && rng.Intn(3) == 0 {
+		// objects that have already analysed another repository: Initialize starts them from scratch
+		td, bc = prevTD, prevBC
+		td.SkipFiles, td.NameFilter, td.Languages = nil, nil, nil
+		bc.FailOnMissingSubmodules = false
+	}
+	prevTD, prevBC = td, bc
 	switch mode {
 	case "prefix":
 		td.SkipFiles = []string{"vendor/", "dir/sub"}
